@@ -387,7 +387,7 @@ fn run_ws_storage(shape: &Shape, seed: u64) -> Result<Observed, Violation> {
     let mut out = Vec::new();
     let mut present = BTreeSet::new();
     let conn_key = |c: ConnectionId| slotmap::Key::data(&c).as_ffi();
-    let mut announce = |maps: &mut TorrentMaps,
+    let announce = |maps: &mut TorrentMaps,
                         rng: &mut SmallRng,
                         out: &mut Vec<(OutMessageMeta, OutMessage)>,
                         c: ConnectionId,
